@@ -846,6 +846,15 @@ impl Authentication for AuthenticationBuiltin {
           }
 
           let dh1_public_key = dh1.public_key_bytes()?;
+
+          // The reply echoes the DH public key of our request, and its signature covers
+          // the echoed value. The request is not signed, so check that it still is the
+          // key we sent. (The replier does the same with the final message.)
+          if reply.dh1 != dh1_public_key {
+            return Err(create_security_error_and_log!(
+              "Diffie-Hellman parameter DH1 mismatch on authentication reply"
+            ));
+          }
           Ok((reply, cert2, c2_hash_recomputed, dh1_public_key))
         })();
         let (reply, cert2, c2_hash_recomputed, dh1_public_key) = match verified {
